@@ -6,7 +6,7 @@ import importlib
 import sys
 from pathlib import Path
 
-from . import core, extract
+from . import core, extract, translate
 
 
 def main() -> int:
@@ -15,6 +15,7 @@ def main() -> int:
         items, problems, changed = extract.regenerate()
         for p in problems:
             print("extraction problem:", p)
+        print("translation:", translate.regenerate())
         for f in sorted((core.VERIF / "harness" / "props").glob("c[0-9][0-9].py")):
             try:
                 mod = importlib.import_module(f"harness.props.{f.stem}")
